@@ -26,6 +26,7 @@ package tcpip
 
 //@ func (*Subnet).Contains props C09 C07
 //@   requires subnetOK(*s)
-//@   ensures result == subnetHas(*s, a)
+//@   ensures implies(result, subnetHas(*s, a))
+//@   ensures implies(subnetHas(*s, a), result)
 //@   loop 1 invariant 0 <= i && i <= len(a) && forall(k, 0, i, a[k] & s.mask[k] == s.address[k])
 //@   loop 1 decreases len(a) - i
